@@ -450,6 +450,18 @@ def run_case(c, ns):
                 if not eq or ne or not rev or changed:
                     bad.append([k, r.hex(), dict(eq=eq, ne=ne, eq_rev=rev, earlier_packet_changed=changed)])
             return {"ok": {"parsed": len(kept), "inputs": [r.hex() for r, _ in kept], "bad": bad[:3]}}
+        if op == "eq_two":
+            # two parses of two DIFFERENT inputs: ==, !=, reversed ==, and whether the two render alike
+            p = cls.unpack(bytes.fromhex(c["raw"]), c.get("offset", 0))
+            q = cls.unpack(bytes.fromhex(c["raw2"]), c.get("offset", 0))
+            out = {}
+            for name, f in (("eq", lambda: p == q), ("ne", lambda: p != q), ("eq_rev", lambda: q == p), ("eq_self", lambda: (p == p, q == q, p != p)),
+                            ("repr_same", lambda: repr(p).replace(hex(id(p)), '') == repr(q).replace(hex(id(q)), ''))):
+                try:
+                    out[name] = f()
+                except Exception as e:
+                    out[name] = "EXC:" + type(e).__name__
+            return {"ok": out}
         if op == "eq_from_value":
             try:
                 raw0 = build(c["value"], ns).pack()
